@@ -22,7 +22,8 @@ class Check(PropertyCheck):
         "xread()/xwrite() loops are modelled in SchedC/Copy.v (Section XRead) by hand",
     ]
     assumptions = [
-        "PARTIAL: scheduler confluence is proved for the default mode; for --sequential it is only tested",
+        "scheduler confluence is proved for both modes (C03_confluent); what stays outside the theorem: that the codec functions read "
+        "nothing but their arguments (Section parameter collect), the libc/kernel behaviour of read()/write()",
         "num_worker >= 1",
     ]
 
